@@ -56,6 +56,9 @@ func Judge(p specgen.Prim, s string) (Verdict, TypedValue) {
 	switch p.Type {
 	case "string":
 		if p.Format == "date-time" {
+			if l := p.Layout(); l != "" && l != "time.RFC3339" {
+				return judgeLayout(l, s)
+			}
 			return judgeTime(s)
 		}
 		return MustAccept, TypedValue{Kind: "string", S: s}
@@ -128,6 +131,100 @@ func Judge(p specgen.Prim, s string) (Verdict, TypedValue) {
 			return DontCare, TypedValue{}
 		}
 		return MustReject, TypedValue{}
+	}
+	return DontCare, TypedValue{}
+}
+
+var (
+	reRFC1123Z      = regexp.MustCompile(`^(Mon|Tue|Wed|Thu|Fri|Sat|Sun), ([0-9]{2}) (Jan|Feb|Mar|Apr|May|Jun|Jul|Aug|Sep|Oct|Nov|Dec) ([0-9]{4}) ([0-9]{2}):([0-9]{2}):([0-9]{2}) ([+-])([0-9]{2})([0-9]{2})$`)
+	reRFC1123ZLoose = regexp.MustCompile(`^[A-Za-z]{3}, [0-9]{1,2} [A-Za-z]{3} [0-9]{4,} [0-9]{1,2}:[0-9]{2}:[0-9]{2}([.,][0-9]+)? [+-][0-9]{4}$`)
+	reDateOnly      = regexp.MustCompile(`^([0-9]{4})-([0-9]{2})-([0-9]{2})$`)
+	reDateOnlyLoose = regexp.MustCompile(`^[0-9]{1,}-[0-9]{1,2}-[0-9]{1,2}$`)
+	reDateTime      = regexp.MustCompile(`^([0-9]{4})-([0-9]{2})-([0-9]{2}) ([0-9]{2}):([0-9]{2}):([0-9]{2})$`)
+	reDateTimeLoose = regexp.MustCompile(`^[0-9]{1,}-[0-9]{1,2}-[0-9]{1,2} [0-9]{1,2}:[0-9]{2}:[0-9]{2}([.,][0-9]+)?$`)
+)
+
+func daysIn(y, mo int) int {
+	dim := []int{31, 28, 31, 30, 31, 30, 31, 31, 30, 31, 30, 31}[mo-1]
+	if mo == 2 && (y%4 == 0 && y%100 != 0 || y%400 == 0) {
+		dim = 29
+	}
+	return dim
+}
+
+// judgeLayout is the lexical space of a date-time whose Go layout is given by the
+// x-goag-go-time-format extension (time.RFC1123Z, time.DateOnly, time.DateTime):
+// must-accept = text in exactly that layout with a real date and time (zone-less
+// layouts mean UTC); text that only resembles the layout (fractions, one-digit
+// fields, a weekday that does not fit the date, second 60, year 0) is a don't-care;
+// everything else, RFC 3339 text included, must be rejected.
+func judgeLayout(layout, s string) (Verdict, TypedValue) {
+	atoi := func(x string) int { n, _ := strconv.Atoi(x); return n }
+	check := func(y, mo, d, h, mi, sec int) Verdict {
+		if y < 1 {
+			return DontCare
+		}
+		if mo < 1 || mo > 12 || d < 1 || d > daysIn(y, mo) || h > 23 || mi > 59 || sec > 60 {
+			return MustReject
+		}
+		if sec == 60 {
+			return DontCare
+		}
+		return MustAccept
+	}
+	switch layout {
+	case "time.DateOnly":
+		m := reDateOnly.FindStringSubmatch(s)
+		if m == nil {
+			if reDateOnlyLoose.MatchString(s) {
+				return DontCare, TypedValue{}
+			}
+			return MustReject, TypedValue{}
+		}
+		y, mo, d := atoi(m[1]), atoi(m[2]), atoi(m[3])
+		if v := check(y, mo, d, 0, 0, 0); v != MustAccept {
+			return v, TypedValue{}
+		}
+		return MustAccept, TypedValue{Kind: "time", T: time.Date(y, time.Month(mo), d, 0, 0, 0, 0, time.UTC)}
+	case "time.DateTime":
+		m := reDateTime.FindStringSubmatch(s)
+		if m == nil {
+			if reDateTimeLoose.MatchString(s) {
+				return DontCare, TypedValue{}
+			}
+			return MustReject, TypedValue{}
+		}
+		y, mo, d, h, mi, sec := atoi(m[1]), atoi(m[2]), atoi(m[3]), atoi(m[4]), atoi(m[5]), atoi(m[6])
+		if v := check(y, mo, d, h, mi, sec); v != MustAccept {
+			return v, TypedValue{}
+		}
+		return MustAccept, TypedValue{Kind: "time", T: time.Date(y, time.Month(mo), d, h, mi, sec, 0, time.UTC)}
+	case "time.RFC1123Z":
+		m := reRFC1123Z.FindStringSubmatch(s)
+		if m == nil {
+			if reRFC1123ZLoose.MatchString(s) {
+				return DontCare, TypedValue{}
+			}
+			return MustReject, TypedValue{}
+		}
+		months := map[string]int{"Jan": 1, "Feb": 2, "Mar": 3, "Apr": 4, "May": 5, "Jun": 6, "Jul": 7, "Aug": 8, "Sep": 9, "Oct": 10, "Nov": 11, "Dec": 12}
+		d, mo, y, h, mi, sec := atoi(m[2]), months[m[3]], atoi(m[4]), atoi(m[5]), atoi(m[6]), atoi(m[7])
+		if v := check(y, mo, d, h, mi, sec); v != MustAccept {
+			return v, TypedValue{}
+		}
+		oh, om := atoi(m[9]), atoi(m[10])
+		if oh > 23 || om > 59 {
+			return DontCare, TypedValue{}
+		}
+		off := oh*3600 + om*60
+		if m[8] == "-" {
+			off = -off
+		}
+		t := time.Date(y, time.Month(mo), d, h, mi, sec, 0, time.FixedZone("", off))
+		if t.Weekday().String()[:3] != m[1] {
+			return DontCare, TypedValue{}
+		}
+		return MustAccept, TypedValue{Kind: "time", T: t}
 	}
 	return DontCare, TypedValue{}
 }
@@ -223,6 +320,37 @@ func LexClasses(p specgen.Prim) []LexClass {
 		}
 	case "string":
 		if p.Format == "date-time" {
+			rfc3339 := []string{"2021-03-04T05:06:07Z", "1999-12-31T23:59:59+02:00", "2020-02-29T00:00:00.5Z"}
+			switch p.Layout() {
+			case "time.DateOnly":
+				return []LexClass{
+					{"canonical", []string{"2021-03-04", "1999-12-31", "2020-02-29", "0001-01-01", "9999-12-31"}},
+					{"out-of-range", []string{"2021-13-01", "2021-02-30", "2021-00-10", "2021-01-32", "2023-02-29"}},
+					{"other-layout", append([]string{"Thu, 04 Mar 2021 05:06:07 +0000", "2021-03-04 05:06:07", "04/03/2021", "20210304"}, rfc3339...)},
+					{"garbage", []string{"yesterday", "1614834367", "2021-03", "2021-03-04T", "2021-03-04 "}},
+					{"empty", []string{""}},
+					{"dont-care", []string{"2021-3-4", "0000-01-01", "10000-01-01"}},
+				}
+			case "time.DateTime":
+				return []LexClass{
+					{"canonical", []string{"2021-03-04 05:06:07", "1999-12-31 23:59:59", "2020-02-29 00:00:00", "0001-01-01 00:00:00", "9999-12-31 23:59:59"}},
+					{"out-of-range", []string{"2021-13-01 00:00:00", "2021-02-30 00:00:00", "2021-01-01 24:00:00", "2021-01-01 00:60:00", "2023-02-29 00:00:00", "2021-01-01 00:00:61"}},
+					{"other-layout", append([]string{"Thu, 04 Mar 2021 05:06:07 +0000", "2021-03-04", "2021-03-04 05:06:07Z", "2021-03-04 05:06"}, rfc3339...)},
+					{"garbage", []string{"yesterday", "1614834367", "05:06:07"}},
+					{"empty", []string{""}},
+					{"dont-care", []string{"2021-03-04 05:06:07.5", "2021-3-4 5:06:07", "2016-12-31 23:59:60"}},
+				}
+			case "time.RFC1123Z":
+				return []LexClass{
+					{"canonical", []string{"Thu, 04 Mar 2021 05:06:07 +0000", "Fri, 31 Dec 1999 23:59:59 +0200", "Sat, 29 Feb 2020 00:00:00 -0730", "Mon, 01 Jan 0001 00:00:00 +0000", "Fri, 31 Dec 9999 23:59:59 +0000"}},
+					{"boundary", []string{"Thu, 29 Feb 2024 12:00:00 +1400", "Fri, 31 Dec 2021 00:00:00 -1200"}},
+					{"out-of-range", []string{"Thu, 32 Mar 2021 05:06:07 +0000", "Tue, 30 Feb 2021 00:00:00 +0000", "Thu, 04 Mar 2021 24:06:07 +0000", "Thu, 04 Mar 2021 05:60:07 +0000"}},
+					{"other-layout", append([]string{"Thu, 04 Mar 2021 05:06:07 GMT", "Thu, 04 Mar 2021 05:06:07 UTC", "04 Mar 2021 05:06:07 +0000", "Thu, 04 Mar 2021 05:06:07", "2021-03-04", "Thursday, 04-Mar-21 05:06:07 UTC", "Thu, 04 Mar 2021 05:06:07 +00:00"}, rfc3339...)},
+					{"garbage", []string{"yesterday", "1614834367", "Thu, 04 Foo 2021 05:06:07 +0000", "Xyz, 04 Mar 2021 05:06:07 +0000"}},
+					{"empty", []string{""}},
+					{"dont-care", []string{"Fri, 04 Mar 2021 05:06:07 +0000", "Thu, 4 Mar 2021 05:06:07 +0000", "Thu, 04 Mar 2021 05:06:07.5 +0000", "Sat, 31 Dec 2016 23:59:60 +0000"}},
+				}
+			}
 			return []LexClass{
 				{"canonical", []string{"2021-03-04T05:06:07Z", "1999-12-31T23:59:59+02:00", "2020-02-29T00:00:00.123456789-07:30", "2000-01-01T12:00:00.5Z", "0001-01-01T00:00:00Z", "9999-12-31T23:59:59Z"}},
 				{"boundary", []string{"2021-02-28T23:59:59.999999999Z", "2024-02-29T12:00:00+14:00", "2021-12-31T00:00:00-12:00"}},
